@@ -3,4 +3,4 @@ From RB Require Import Base.Prelude Conn.Serial Conn.SerialProofs Conn.Send Conn
 Extraction Language OCaml.
 Set Extraction Output Directory ".".
 Extraction "gen_model.ml" conn_init alloc_serial send_message ctx_serial write_once write into_progress resume
-  all_bytes_written drop_ctx bytes_total world0 wire_serial accepted_sum run_send r_state r_completed r_reported.
+  send_message_write_all all_bytes_written drop_ctx bytes_total world0 wire_serial accepted_sum run_send r_state r_completed r_reported.
